@@ -1016,7 +1016,7 @@ def gen_cases(ctx, splitter_params):
     q = ctx.quick()
 
     # A. random packet sequences x random chunkings, with and without injected invalid types
-    for i in range(ctx.n(900, 12000)):
+    for i in range(ctx.n(450, 12000)):
         mode = rng.choice(['one', 'bytes', 'fine', 'fine', 'mid', 'mid', 'coarse', 'split1'])
         psizes = rng.choice(['tiny', 'small', 'small', 'small', 'medium'])
         npk = rng.range(1, 6) if psizes != 'medium' else rng.range(1, 3)
@@ -1026,19 +1026,19 @@ def gen_cases(ctx, splitter_params):
         cases.append(push_case(descs, sizes, 'parser' if i % 2 == 0 else 'source',
                                raising_sink=(i % 7 == 0 and i % 2 == 0), probe=(i % 5 == 0)))
     # garbage streams: correspondence only
-    for i in range(ctx.n(150, 2000)):
+    for i in range(ctx.n(100, 2000)):
         descs = gen_garbage(rng)
         n = len(stream_of(descs))
         cases.append(push_case(descs, random_sizes(rng, n, rng.choice(['one', 'fine', 'mid'])),
                                'parser' if i % 2 == 0 else 'source', probe=True))
     # B. every single split point / 1-byte chunks of short streams
-    for i in range(ctx.n(30, 300)):
+    for i in range(ctx.n(10, 300)):
         descs = [gen_packet(rng, sizes=rng.choice(['tiny', 'small'])) for _ in range(rng.range(1, 4))]
         n = len(stream_of(descs))
         cases.append({'kind': 'splits', 'descs': descs, 'n': n, 'driver': 'parser' if i % 2 == 0 else 'source'})
         cases.append(push_case(descs, [1] * n, 'parser'))
     # C. maximum 8- and 16-bit lengths
-    for i in range(ctx.n(10, 80)):
+    for i in range(ctx.n(6, 80)):
         ty = rng.choice(VALID_TYPES)
         big = gen_packet(rng, ty, 'max')
         descs = [gen_packet(rng, sizes='tiny'), big, gen_packet(rng, sizes='tiny')]
@@ -1055,7 +1055,7 @@ def gen_cases(ctx, splitter_params):
         if len(seg_bytes(big)) <= 300:
             cases.append({'kind': 'splits', 'descs': [big], 'n': len(seg_bytes(big)), 'driver': 'parser'})
     # D. server life cycle
-    for i in range(ctx.n(240, 3000)):
+    for i in range(ctx.n(120, 3000)):
         tn = ['tcp_server', 'unix', 'ws_server'][i % 3]
         cases.append({'kind': 'server', 'transport': tn,
                       'clients': gen_server_case(rng, tn, rng.range(2, 4))})
@@ -1072,7 +1072,7 @@ def gen_cases(ctx, splitter_params):
                 cl2.update(abrupt=False, text_before=[])
             cases.append({'kind': 'server', 'transport': tn, 'clients': [cl1, cl2]})
     # E. pull readers
-    for i in range(ctx.n(300, 4000)):
+    for i in range(ctx.n(150, 4000)):
         reader = ['sync', 'buffered', 'async'][i % 3]
         r = rng.below(10)
         descs = [gen_packet(rng, sizes=rng.choice(['tiny', 'small', 'small', 'medium'])) for _ in range(rng.range(0, 5))]
@@ -1087,7 +1087,7 @@ def gen_cases(ctx, splitter_params):
         c['sizes'] = random_sizes(rng, n, rng.choice(['one', 'bytes', 'fine', 'mid'])) if reader == 'async' else []
         cases.append(c)
     # F. USB per-endpoint splitters
-    for i in range(ctx.n(300, 4000)):
+    for i in range(ctx.n(150, 4000)):
         ty = [4, 2, 3][i % 3]
         if ty not in splitter_params:
             continue
